@@ -641,20 +641,38 @@ Print Assumptions inlines_S_T_hold_on_corpus.
        end only bytes that are no `/` - punctuation, closing brackets, `&letters;` - the first of them no letter);
      * the default text arm and the Text `w`: the appended Text holds the consumed bytes (left-trimmed after a hard
        break), its end column is >= its length (column_offset >= -pos); when all of them are letters, J before.
-   NOT TREATED: the three raw-HTML forms of handle_pointy_brace that take `scanner match + k` bytes - CDATA `<![`,
-   declaration `<!X`, processing instruction `<?` - where valid UTF-8 of the content is needed (1e).  They are excluded
-   by `no_decl_pi inp`: behind every `<` of the content there is no `?`, and a `!` only in front of `--` (comments are
-   treated).  CONSEQUENCE (inlines_total_no_decl_pi): every option set (autolink and relaxed_autolinks included),
-   oracle, reference map, memo switch - under the four premises of 1g and no_decl_pi the inline phase of a block is
-   TOTAL: all 76 Panic sites unreachable; no premise on NUL bytes or UTF-8. *)
+     * the three raw-HTML forms of handle_pointy_brace that take `scanner match + k` bytes - CDATA `<![`, declaration
+       `<!X`, processing instruction `<?` - end in `>` when the content is valid UTF-8 without NUL (InlinesTotal4Utf8.v,
+       InlinesTotal4Stop.v): what the scanner matched ends on a character boundary (u0: executable, the UTF-8 validator
+       run over the byte classes of the expression), every valid character outside the terminator bytes is matched by
+       the scanner's character class (cover: executable, derivatives over the bytes the validator accepts), so by
+       maximality of the match the rest starts with the terminator or is too short for handle_pointy_brace to go on.
+       This is where valid UTF-8 enters (witness 1e).
+   CONSEQUENCES:
+     inlines_total             the corrected full statement of 1e (inlines_total_statement, both memo switches): NUL-free, right-trimmed, valid
+                               UTF-8 content, first line not blank, line endings covered by the line-offset table, budget
+                               within its maximum => parse_inlines answers Ok, for EVERY option set (autolink and
+                               relaxed_autolinks included), oracle and reference map: all 76 Panic sites unreachable.
+     inlines_total_no_decl_pi  without any premise on NUL or UTF-8, for contents without the three forms: `no_decl_pi inp`
+                               = behind every `<` there is no `?`, and a `!` only in front of `--` (comments allowed).
+   That the block phase hands over such contents (1g) is still NOT proved here. *)
 From V Require Proofs.InlinesTotal4Walk Proofs.InlinesTotal4Re Proofs.InlinesTotal4Last Proofs.InlinesTotal4Auto
-     Proofs.InlinesTotal4Inv Proofs.InlinesTotal4Main.
+     Proofs.InlinesTotal4Inv Proofs.InlinesTotal4Utf8 Proofs.InlinesTotal4Stop Proofs.InlinesTotal4Main.
 
 Theorem inlines_T_statement_refuted : ~ inlines_T_statement.
 Proof. exact InlinesTotal4Main.T_statement_refuted. Qed.
 Print Assumptions inlines_T_statement_refuted.
 
 Definition no_decl_pi : bytes -> bool := InlinesTotal4Main.no_decl_pi.
+
+(* inlines_total_statement (1e) is the instance memo = true: Proofs/InlinesTotal4Main.inlines_total *)
+Theorem inlines_total :
+  forall memo o u inp lo sl refmap maxref rs0,
+    has_nul inp = false -> Strings.rtrim_slice inp = inp -> Spec.EscapeSpec.utf8_valid inp = true ->
+    first_line_not_blank inp = true -> line_endings inp < List.length lo -> (rs0 <= maxref)%N ->
+    exists ch rs, parse_inlines memo o u inp lo sl refmap maxref rs0 = Ok (ch, rs).
+Proof. exact InlinesTotal4Main.inlines_total_utf8. Qed.
+Print Assumptions inlines_total.
 
 Theorem inlines_total_no_decl_pi :
   forall memo o u inp lo sl refmap maxref rs0,
